@@ -47,8 +47,7 @@ Fixpoint val_eqb (a b : val) {struct a} : bool :=
   | VFun x, VFun y => String.eqb x y
   | VSlice a1 b1, VSlice a2 b2 => val_eqb a1 a2 && val_eqb b1 b2
   | VGen _, VGen _ => true                  (* generator objects are not compared *)
-  | VAllFail r1 i1, VAllFail r2 i2 => val_eqb r1 r2 && fields_eqb i1 i2
-  | VPlaceholder, VPlaceholder => true
+  | VAllFail _ i1, VAllFail _ i2 => fields_eqb i1 i2   (* the message shows the inputs only *)
   | _, _ => false
   end.
 
@@ -292,7 +291,6 @@ Fixpoint py_repr (fuel : nat) (v : val) : string :=
       | VSlice a b => "slice(" +++ py_repr f a +++ ", " +++ py_repr f b +++ ", None)"
       | VGen _ => "<generator>"
       | VAllFail _ _ => "<FirstExceptionInAll>"
-      | VPlaceholder => "<Placeholder>"
       end
   end.
 
